@@ -20,15 +20,27 @@ from engine.mirsym import SliceRef, Ptr, L, Guarded, Float
 SETTERS = ['module_color', 'background_color', 'image_background_color']
 FIELD = {'module_color': 1, 'background_color': 5, 'image_background_color': 7}
 NOT_HASH = [c for c in range(128) if c != ord('#')]
+NOT_HASH_256 = [c for c in range(256) if c != ord('#')]
 
 
 def new_options(I, prog):
     return I.call_fn(prog.resolve('SvgOptions::new'), [])
 
 
-def sym_string(I, n, has_hash):
-    """ASCII string of n characters; first is '#' (has_hash) or anything but '#'"""
+def sym_string(I, n, has_hash, u8=False):
+    """ASCII string of n characters; first is '#' (has_hash) or anything but '#'.
+    u8: n arbitrary bytes instead (the caller assumes utf8_valid of them): any Rust String of that byte length"""
     items = []
+    if u8:
+        for i in range(n):
+            if i == 0 and has_hash:
+                items.append(ord('#'))
+            elif i == 0:
+                # any byte but '#': a surjective table over a free index, so that starts_with('#') folds
+                items.append(T.zext(8, 32, T.lut([NOT_HASH_256[k % 255] for k in range(256)], T.var('ch0', 8, below=255), 8)))
+            else:
+                items.append(T.zext(8, 32, T.var('ch%d' % i, 8)))
+        return I.lib.new_string(items), items
     for i in range(n):
         x = T.var('ch%d' % i, 8, below=128)
         if i == 0 and has_hash:
@@ -42,7 +54,8 @@ def sym_string(I, n, has_hash):
 
 
 def job_color(job):
-    which, n, has_hash, seed = job
+    which, n, has_hash, seed = job[:4]
+    u8 = len(job) > 4 and job[4]
     prog = worker_prog()
     extra = worker_extra()
     res = {'evaluations': 0, 'obligations': 0, 'discharged': 0, 'failures': [], 'nontrivial': [], 'samples': [],
@@ -50,10 +63,14 @@ def job_color(job):
     I = M.Interp(prog)
     opts = new_options(I, prog)
     before = list(opts[FIELD[SETTERS[which]]][0])
-    s, items = sym_string(I, n, has_hash)
+    s, items = sym_string(I, n, has_hash, u8)
+    asm = []
+    if u8:
+        asm.append(I.lib.utf8_valid(items))
+
     r = I.call_fn(prog.resolve('SvgOptions::' + SETTERS[which]), [opts, s])
     obl = []
-    name = '%s(%d chars%s)' % (SETTERS[which], n, ', leading #' if has_hash else '')
+    name = '%s(%d %s%s)' % (SETTERS[which], n, 'bytes of any well-formed UTF-8 string' if u8 else 'chars', ', leading #' if has_hash else '')
     if r is M.DEAD:
         obl.append(('%s returns' % name, 0))
     else:
@@ -66,13 +83,15 @@ def job_color(job):
         obl.append(('stored colour has exactly 4 components for every string', T.eq(64, cnt, 4)))
     pan = [('%s@%s: %s' % (o.kind, o.where, o.msg[:50]), T.implies(T.and_many(list(o.pc)), o.cond)) for o in I.obligations]
     solver = worker_solver(60000, 'z3-new', lut_mode='ite', logic='QF_BV')
+    for a_ in asm:
+        solver.assume(a_)
     syn, nsolv, fails, unk = discharge(solver, obl + pan, eval_search=0, chunk=1)
     res['obligations'] = len(obl) + len(pan)
     res['panic_obligations'] = len(pan)
     res['evaluations'] = res['obligations']
     res['discharged'] = res['obligations'] - len(fails) - len(unk)
     res['nontrivial'] = ['%s #%d' % (name, i) for i in range(len(obl) + len(pan))]
-    res['samples'] = [{'call': name, 'free': '%d ASCII characters' % (n - (1 if has_hash else 0)), 'panic_obligations': len(pan)}]
+    res['samples'] = [{'call': name, 'free': '%d %s' % (n - (1 if has_hash else 0), 'bytes (assumed: well-formed UTF-8)' if u8 else 'ASCII characters'), 'panic_obligations': len(pan)}]
     if unk and not fails:
         raise Inconclusive('solver unknown: %s' % unk[:2])
     native = OV.Native(extra['native'])
@@ -82,11 +101,22 @@ def job_color(job):
         for i in range(n):
             if i == 0 and has_hash:
                 chars.append(ord('#'))
+            elif u8 and i == 0:
+                chars.append(NOT_HASH_256[model.get('ch0', 0) % 255])
+            elif u8:
+                chars.append(model.get('ch%d' % i, 0) & 0xFF)
             elif i == 0:
                 chars.append(NOT_HASH[model.get('ch0', 0) % 127])
             else:
                 chars.append(model.get('ch%d' % i, 0) % 128)
         txt = bytes(chars)
+        if u8:
+            try:
+                txt.decode('utf-8')
+            except UnicodeDecodeError:
+                res['failures'].append({'key': 'C17/color.parse-unwrap', 'confirmed': False, 'obligation': lab,
+                                        'what': 'solver model %r is not well-formed UTF-8 (assumption not honoured)' % txt})
+                continue
         ans = native.ask('wasm_color %d %s' % (which, OV.hexs(txt)))
         confirmed = ans.startswith('PANIC') or ans == 'ABORT'
         res['failures'].append({'key': 'C17/color.parse-unwrap', 'confirmed': confirmed, 'obligation': lab,
@@ -95,7 +125,31 @@ def job_color(job):
     res['vacuity'] = 1
     # translator validation: a well-formed colour through the native setter
     rnd = random.Random(seed + n)
-    if n in (7, 9) and has_hash and r is not M.DEAD:
+    if u8 and r is not M.DEAD and n >= 2:
+        # a concrete non-ASCII string through both: stored vector must agree
+        txt = ('#' if has_hash else '') + rnd.choice(['\u00e9', '\u20ac', 'f\u00e9', '\u00e9f']) * 4
+        txt = txt.encode('utf-8')[:n]
+        try:
+            txt.decode('utf-8')
+            okt = len(txt) == n
+        except UnicodeDecodeError:
+            okt = False
+        if okt:
+            ans = native.ask('wasm_color %d %s' % (which, OV.hexs(txt)))
+            env = {'ch%d' % i: txt[i] for i in range(n)}
+            if not has_hash:
+                env['ch0'] = NOT_HASH_256.index(txt[0])
+            from checks import svgdrv as S
+            mine = []
+            for g, x in S.flatten(list(r[FIELD[SETTERS[which]]][0])):
+                if (g if type(g) is int else T.evaluate(g, env)):
+                    mine.append(x if type(x) is int else T.evaluate(x, env))
+            res['validation']['cases'] += 1
+            fld = ['module_color', 'background_color', 'image_background_color'][which]
+            if ('%s: %s' % (fld, mine)) not in ans:
+                res['validation']['disagreements'] += 1
+                raise Inconclusive('translator validation failed for %s(%r): %s / %s' % (SETTERS[which], txt, mine, ans[:200]))
+    if n in (7, 9) and has_hash and r is not M.DEAD and not u8:
         txt = b'#' + bytes(rnd.choice(b'0123456789abcdefABCDEF') for _ in range(n - 1))
         ans = native.ask('wasm_color %d %s' % (which, OV.hexs(txt)))
         want = [int(txt[1 + 2 * i:3 + 2 * i], 16) for i in range((n - 1) // 2)] + ([255] if n == 7 else [])
@@ -515,16 +569,26 @@ def main(argv):
                 if chk.tier == 'quick' and which > 0 and n not in (0, 3, 7, 9):
                     continue
                 jobs.append((which, n, has_hash, chk.seed))
+    # arbitrary (non-ASCII) strings: every well-formed UTF-8 string of 0..9 bytes (7 in the quick tier for two of the setters)
+    for which in range(3):
+        for n in range(0, 10):
+            for has_hash in (False, True):
+                if has_hash and n == 0:
+                    continue
+                if chk.tier == 'quick' and which > 0 and n not in (2, 5, 7):
+                    continue
+                jobs.append((which, n, has_hash, chk.seed, True))
     chk.jobs(job_color, jobs, extra={'native': native_path})
     chk.jobs(job_qr_svg, [(a, b, c, chk.seed) for a in (False, True) for b in (False, True) for c in (False, True)]
              + [(False, False, False, chk.seed, True), (True, True, True, chk.seed, True)], extra={'native': native_path})
     chk.jobs(job_qr, [(v, chk.seed) for v in ([0, 1] if chk.tier == 'quick' else [0, 1, 2, 6, 20])] + [(0, chk.seed, True)], extra={'native': native_path})
     chk.jobs(job_setters, [0], extra={'native': native_path})
-    chk.bounds += ['colour strings: every ASCII string of length 0..%d (characters symbolic), with and without leading #' % maxlen,
+    chk.bounds += ['colour strings: every ASCII string of length 0..%d (characters symbolic), with and without leading #; every well-formed UTF-8 string of 0..9 bytes '
+                   '(bytes symbolic under the assumption of well-formedness, decided with a byte-level model of String/str: as_bytes, from_utf8, char boundaries)' % maxlen,
                    'qr_svg: 8 option states (image_size, image_position, image each set/unset) x symbolic colours, margin, level/version options, floats, build outcome',
                    'qr_svg and qr additionally with a content of arbitrary length (length a free value <= 2^24, bytes not modelled)',
                    'qr: QRCode::new uninterpreted (arbitrary outcome, arbitrary module values) for sizes 21, 25 (quick)']
-    chk.outside += ['non-ASCII colour strings (the byte-level UTF-8 view of a String is not modelled symbolically; a concrete non-ASCII string is replayed natively)',
+    chk.outside += ['colour strings longer than 10 characters / 9 bytes of non-ASCII text',
                     'colour vectors / position vectors of other lengths than the setters can store (the fields are private)',
                     'the wasm-bindgen glue itself and the wasm32 target (the file is compiled for the host)']
     # concrete non-ASCII replay (outside the symbolic claim, reported if it panics)
